@@ -42,12 +42,14 @@ fn algo() -> BoxedStrategy<Algo> {
 
 fn call_strategy(pal: Vec<char>) -> BoxedStrategy<Call> {
     let pal2 = pal.clone();
-    let small = (proptest::collection::vec(any::<u16>(), 0..=40), Just(0u32));
-    let medium = (proptest::collection::vec(any::<u16>(), 1..=6), 50u32..2500);
-    let limit = (proptest::collection::vec(any::<u16>(), 1..=4), proptest::sample::select(LIMIT_SIZES.iter().map(|x| x.0).collect::<Vec<_>>()));
-    let hay = prop_oneof![75 => small, 18 => medium, 7 => limit];
+    let small = (proptest::collection::vec(any::<u16>(), 0..=40), Just((0u32, 0u32)));
+    let medium = (proptest::collection::vec(any::<u16>(), 1..=6), (50u32..2500).prop_map(|h| (h, 0u32)));
+    let limit = (proptest::collection::vec(any::<u16>(), 1..=4), proptest::sample::select(limit_sizes().clone()));
+    let hay = prop_oneof![72 => small, 16 => medium, 12 => limit];
     (hay, algo(), any::<bool>(), gen::any_cfg(), needle_mode(8), 0u8..4, any::<u16>(), any::<bool>(), any::<bool>(), proptest::collection::vec(any::<u32>(), 0..=2), proptest::sample::select(vec![0u32, 0, 0, 2, 100, 101, 319, 320, 2047, 2048, 2049, 3000]))
-        .prop_map(move |((hs, tile), algo, indices, cfg, mode, nshape, nsel, hu, nu, prior, ntile)| {
+        .prop_map(move |((hs, (tile, limit_needle)), algo, indices, cfg, mode, nshape, nsel, hu, nu, prior, ntile)| {
+            // a limit class fixes the needle length too (tiled motif)
+            let (nshape, ntile) = if limit_needle > 0 && nshape != 2 { (3u8, limit_needle) } else { (nshape, ntile) };
             let motif = text_from(&pal, &hs);
             let hay = Text { motif: motif.clone(), tile_to: tile, tail: vec![] };
             // needle: normalized derivation, or raw (possibly not normalized) palette text, or tiled
@@ -108,7 +110,7 @@ impl Check for C10 {
             let hr = if c.hay_unicode || hay.bytes.is_none() { Repr::Unicode } else { Repr::Ascii };
             let nr = if c.needle_unicode || needle.bytes.is_none() { Repr::Unicode } else { Repr::Ascii };
             let ctx = || format!("call #{k} {}{} ({}x{}) haystack={} needle={} cfg={:?}", c.algo.name(), if c.indices { "_indices" } else { "_match" }, hr.name(), nr.name(), show(&hay.chars), show(&needle.chars), c.cfg);
-            if c.hay.tile_to > 0 && LIMIT_SIZES.iter().any(|x| x.0 == c.hay.tile_to) {
+            if c.hay.tile_to > 0 && limit_sizes().iter().any(|x| x.0 == c.hay.tile_to) {
                 limit_class = true;
             }
             let _ = nucleo_matcher::verif::take_last_slab_extents();
@@ -223,15 +225,21 @@ pub fn decode_seq(data: &[u8]) -> SeqCase {
         let size_class = b.byte();
         let hlen = b.below(41);
         let motif: Vec<char> = (0..hlen).map(|_| pal[b.below(pal.len())]).collect();
+        let mut limit_needle = 0u32;
         let tile = if size_class < 200 || motif.is_empty() {
             0
         } else if size_class < 235 {
             50 + (b.u16() as u32 % 2450)
         } else {
-            LIMIT_SIZES[b.below(LIMIT_SIZES.len())].0
+            let (h, n) = limit_sizes()[b.below(limit_sizes().len())];
+            limit_needle = n;
+            h
         };
         let hay = Text { motif: motif.clone(), tile_to: tile, tail: vec![] };
-        let nshape = b.below(4);
+        let mut nshape = b.below(4);
+        if limit_needle > 0 && nshape != 2 {
+            nshape = 3;
+        }
         let nlen = 1 + b.below(8);
         let needle = match nshape {
             0 => {
@@ -247,7 +255,8 @@ pub fn decode_seq(data: &[u8]) -> SeqCase {
             2 => Text::plain((0..nlen).map(|_| pal[b.below(pal.len())]).collect()),
             _ => {
                 let sizes = [2u32, 100, 101, 319, 320, 2047, 2048, 2049, 3000];
-                Text { motif: motif.iter().map(|&c| norm(c, cfg)).collect(), tile_to: sizes[b.below(sizes.len())], tail: vec![] }
+                let t = if limit_needle > 0 { limit_needle } else { sizes[b.below(sizes.len())] };
+                Text { motif: motif.iter().map(|&c| norm(c, cfg)).collect(), tile_to: t, tail: vec![] }
             }
         };
         let r = b.byte();
